@@ -491,6 +491,10 @@ def late_listeners(rng: random.Random, s: Scn, p: float = 0.35):
     transitions they listen to have already run — and sometimes attached again later"""
     if rng.random() >= p or s.is_chain():
         return
+    if any(o[0] == "fresh" for o in s.ops):
+        # (another instance of the class made in mid-history gets the constructor's listeners only; which of the
+        # late ones it should get is the scenario writer's choice, not the library's: the two are not combined)
+        return
     used = sorted({c.provider for c in s.cbs if c.provider.startswith("L")})
     was_async = s.is_async()
     ops = list(s.ops)
